@@ -50,7 +50,7 @@ def check_selection(ctx, d, costs, n, got, kind, meta):
 
 
 def run(ctx):
-    ctx.prove(["PvModel.Props.C16"])
+    ctx.prove(["PvModel.Props.C16", "PvModel.Props.R16"])
     run_suite(ctx)
 
 
